@@ -13,7 +13,7 @@ from engine import Stage, Check
 
 PID = "C10"
 DEFAULT_PORTS = {443, 44330}
-PORT_POOL = [443, 44330, 8443, 4433, 9443, 853, 993, 5061, 10443, 1443]
+PORT_POOL = [443, 44330, 8443, 4433, 9443, 853, 993, 5061, 10443, 1443, 8080, 8081]     # incl. the default target 8080 and a usual map target
 
 
 def model(opts, sport):
